@@ -83,6 +83,7 @@ def explore_scenario(h, desc, tier, profile=False):
     M.key_prefix = desc.get("family", "") + ":"
     stubs.install()
     path_pcs = []
+    core.XCHECK.update(budget=int(os.environ.get("VERIF_XCHECK", "2" if tier == "quick" else "6")), seen=0, dumps=[])
 
     def fn():
         stubs.reset_hash_model()
@@ -91,6 +92,7 @@ def explore_scenario(h, desc, tier, profile=False):
         nf = len(M.failures)
         try:
             h.run(desc, M)
+            M.end_of_path()
         except mode.PreconditionFailed as e:
             return ("precondition", str(e))
         except core.HarnessError:
@@ -180,6 +182,12 @@ def explore_scenario(h, desc, tier, profile=False):
             res["errors"].append(list(r.out))
     res["stubs"] = sorted(stubs.HIT)
     res["assumptions"] = list(dict.fromkeys(core.CTX.assumptions)) if core.CTX else []
+    res["canary"] = dict(M.canary)
+    if core.XCHECK["dumps"]:
+        from symx import xcheck
+        dumps, core.XCHECK["dumps"], core.XCHECK["budget"] = core.XCHECK["dumps"], [], 0
+        res["xcheck"], res["xcheck_disagree"] = xcheck.recheck(dumps, 10 if tier == "quick" else 30)
+        res["xcheck_n"] = len(dumps)
 
     # ---- counterexamples: beautify, replay on real float code
     seen_keys = set()
@@ -274,6 +282,8 @@ def worker_main(pid, tier, seed, inq, outq, wid):
     try:
         h = load_harness(pid)
         scen = h.scenarios(tier, seed)
+        import pgmpy.models, pgmpy.inference, pgmpy.estimators  # noqa: pay the import cost before the clock starts
+        outq.put(("ready", wid))
         profiled = set()
         while True:
             try:
@@ -369,7 +379,9 @@ def main(argv=None):
             wid += 1
     results = []
     done = 0
-    deadline = t0 + total_budget
+    # the budget clock starts when the first worker has finished importing (imports take ~10 s on an idle machine but minutes on a loaded one)
+    deadline = t0 + total_budget + 900
+    started = False
     while done < len(procs):
         try:
             r = outq.get(timeout=2)
@@ -382,7 +394,7 @@ def main(argv=None):
                     while True:
                         r = outq.get_nowait()
                         if isinstance(r, tuple):
-                            done += 1
+                            done += 1 if r[0] == "done" else 0
                         else:
                             results.append(r)
                 except queue.Empty:
@@ -390,7 +402,12 @@ def main(argv=None):
                 break
             continue
         if isinstance(r, tuple):
-            done += 1
+            if r[0] == "ready":
+                if not started:
+                    started = True
+                    deadline = time.time() + total_budget
+            else:
+                done += 1
         else:
             results.append(r)
     for p in procs:
@@ -412,7 +429,19 @@ def report(h, pid, a, seed, scen, idx, results, wall):
     errors, failures, families = [], [], {}
     samples = []
     truncated = 0
+    xc = {}
+    xc_n = 0
+    xc_bad = []
+    canary = {}
     for r in results:
+        for sv, d in (r.get("xcheck") or {}).items():
+            for v, n in d.items():
+                xc.setdefault(sv, {})[v] = xc.setdefault(sv, {}).get(v, 0) + n
+        xc_n += r.get("xcheck_n", 0)
+        for b in r.get("xcheck_disagree") or []:
+            xc_bad.append(dict(desc=r["desc"], solver=b[0], smt2=b[1]))
+        for k, v in (r.get("canary") or {}).items():
+            canary[k] = canary.get(k, 0) + v
         for k in tot:
             tot[k] += r.get(k, 0) or 0
         solver_time += r.get("solver_time", 0.0)
@@ -471,6 +500,10 @@ def report(h, pid, a, seed, scen, idx, results, wall):
         print(f"note: {len(unrepro)} solver counterexample(s) did not reproduce on the float64 code (reported as inconclusive)")
         for fl in unrepro[:5]:
             print("   ", fl["key"], str(fl.get("detail"))[:200], json.dumps(fl["desc"])[:200])
+    if xc_bad:
+        print(f"note: {len(xc_bad)} second-solver DISAGREEMENT(s) on queries answered unsat in-process; first: {json.dumps(xc_bad[0], default=str)[:800]}")
+    if canary.get("proved_unexpectedly"):
+        print(f"note: {canary['proved_unexpectedly']} canary obligation(s) (cross-wired, must be refutable) were PROVED: vacuity suspected")
     if errors:
         print(f"note: {len(errors)} scenario error(s); first: {json.dumps(errors[0], default=str)[:600]}")
     level = getattr(h, "LEVEL", "model_checking")
@@ -492,6 +525,10 @@ def report(h, pid, a, seed, scen, idx, results, wall):
             functions_encoded=sorted(funcs), stubs_hit=sorted(stubs_hit),
             bounds=getattr(h, "BOUNDS", {}).get(a.tier, ""),
             known_findings_matched=sorted(printed),
+            second_solver_recheck=dict(unsat_queries_resubmitted=xc_n, verdicts=xc, disagreements=len(xc_bad),
+                                       note="sample of the queries the in-process z3 answered unsat (obligations and pruned branches), "
+                                            "re-decided from SMT-LIB2 text by /usr/bin/z3 4.8.12 and the cvc5 1.0 binary; anything but unsat/sat is inconclusive"),
+            canaries=canary,
             hash_seeds=sorted({scen[i].get("hashseed", 0) for i in idx}),
             exhaustive=False,
         ),
